@@ -350,6 +350,101 @@ func AliasArrays(f *fit.File) int {
 	return n
 }
 
+// TweakTimes changes how the time values of f are held without changing what
+// they mean on the wire: with subSecond every valid time gets a fractional
+// part (1 ns, 0.5 s, 0.75 s, 0.999999999 s in turn; FIT stores whole seconds,
+// the fraction is cut off); with zonedUTC every valid date_time (UTC-kind)
+// field is shown in a zone other than UTC (same instant). It returns how many
+// values it changed.
+func TweakTimes(f *fit.File, subSecond, zonedUTC bool) int {
+	tab := Table()
+	fracs := []time.Duration{1, 500 * time.Millisecond, 750 * time.Millisecond, 999999999}
+	zones := []*time.Location{time.FixedZone("", 19800), Location("America/New_York"), time.FixedZone("W", -12600), Location("Australia/Lord_Howe")}
+	n := 0
+	for _, s := range append(FileSlots(), Slots(f.Type())...) {
+		for _, m := range SlotMsgs(f, s) {
+			m = reflect.Indirect(m)
+			if !m.IsValid() {
+				continue
+			}
+			num, _ := MsgNumOfType(m.Type().Name())
+			mi := tab.Msgs[num]
+			for i := 0; i < m.NumField(); i++ {
+				fv := m.Field(i)
+				t, ok := fv.Interface().(time.Time)
+				if !ok || !fv.CanSet() || fit.IsBaseTime(t) {
+					continue
+				}
+				kind := 0
+				if mi != nil && i < len(mi.BySIdx) && mi.BySIdx[i] != nil {
+					kind = mi.BySIdx[i].Kind
+				}
+				changed := false
+				if subSecond {
+					t = t.Add(fracs[(n+i)%len(fracs)])
+					changed = true
+				}
+				if zonedUTC && kind == fitmodel.KindTimeUTC {
+					if z := zones[(n+i)%len(zones)]; z != nil {
+						t = t.In(z)
+						changed = true
+					}
+				}
+				if changed {
+					fv.Set(reflect.ValueOf(t))
+					n++
+				}
+			}
+		}
+	}
+	return n
+}
+
+// EditInPlace sets, in every slice slot of f that holds messages, the first
+// one-byte or two-byte unsigned scalar field that is invalid in all of the
+// slot's messages to 1, 2, 3, ... (what a program does that decodes or builds
+// a file, writes it, merges sensor data into its records and writes it
+// again). It returns a description of what it set.
+func EditInPlace(f *fit.File) string {
+	tab := Table()
+	var done []string
+	for _, s := range Slots(f.Type()) {
+		if !s.Multi {
+			continue
+		}
+		msgs := SlotMsgs(f, s)
+		if len(msgs) == 0 {
+			continue
+		}
+		mi := tab.Msgs[s.Msg]
+		if mi == nil {
+			continue
+		}
+		for i, fi := range mi.BySIdx {
+			if fi == nil || fi.Array || fi.Kind != fitmodel.KindNative || (fi.Base != 0x02 && fi.Base != 0x84) {
+				continue
+			}
+			free := true
+			for _, m := range msgs {
+				m = reflect.Indirect(m)
+				if !m.IsValid() || !FromReflect(m.Field(i)).Equal(fitmodel.InvalidVal(fi)) {
+					free = false
+					break
+				}
+			}
+			if !free {
+				continue
+			}
+			for k, m := range msgs {
+				SetReflect(reflect.Indirect(m).Field(i), fitmodel.U(uint64(k%200+1)))
+			}
+			done = append(done, fmt.Sprintf("%s.%s", s.Name, fi.Name))
+			break
+		}
+	}
+	return strings.Join(done, ",")
+}
+
 // FileValues renders the field values of every message of f (header and
 // checksum left out), for comparing two Files value by value.
 func FileValues(f *fit.File) string {
